@@ -70,6 +70,28 @@ def churn(ctx):
     return {"real_forced_shutdowns_changing_trees": seen}
 
 
+def churn_deaths(ctx):
+    """a pool that breaks while another worker's process tree keeps changing: all workers killed and reaped"""
+    trials = 5 if ctx.tier == "quick" else 20
+    res = runner.run_script(kill_scen.SCRIPT, vlib.REPO, timeout=120 + 60 * trials, args=("churn_death", trials))
+    got = runner.last_json(res)
+    why = []
+    if got is None:
+        why.append("no result: " + res["stderr"][-300:])
+    else:
+        if got["workers_alive_after"]:
+            why.append(f"workers survive a broken pool (their process trees were changing while they were killed): {got['workers_alive_after']}")
+        if got["unresolved"]:
+            why.append(f"{got['unresolved']} futures of a broken pool did not fail with TerminatedWorkerError")
+        if got["slow_or_hung"]:
+            why.append(f"terminating the broken pool took more than 15 s / shutdown did not return in {got['slow_or_hung']} of {got['trials']} trials")
+    if why:
+        rp = vlib.write_replay(ctx, "churndeath", {"kind": "broken pool with changing process trees deviates", "why": why, "observed": got,
+                                                   "plan": {"trials": trials, "workers": "one forks short-lived children in a loop, the other SIGKILLs itself"}})
+        ctx.violations.append((f"real broken pool (changing trees): {why[0][:160]}", rp, False))
+    return {"real_broken_pools_changing_trees": {"trials": trials, "ok": not why, "observed": got}}
+
+
 def deaths(ctx):
     plans = [("signal", 9, 2), ("exit", 3, 0), ("signal", 11, 1), ("signal", 15, 0)]
     if ctx.tier == "thorough":
